@@ -82,6 +82,19 @@ CLAIMS = {
         technique="TLA+ transcription of the ownership algorithm, TLC exhaustive over assignments; recorded real partitions validated by a TLA+ trace specification; per-part assembly replay",
         design_ref="DESIGN.md 6/C20",
     ),
+    "C18": dict(
+        text="Four TLA+ modules. HyperLaws.tla: deformation gradients built from stretches with cube determinants, shears and Pythagorean rotations, with the exact energy and PK2 stress of Saint-Venant-Kirchhoff, Neo-Hooke and "
+        "Mooney-Rivlin; TLC checks det F = J, W = 0 and S = 0 at the reference, invariance of W and S under the Rotate action, and the exact derivative relation for the quadratic energy. Every state is replayed through "
+        "HyperElasticState and Compute_W / Compute_dWde / Compute_d2Wde on real meshes for all six laws (SVK, NH, MR, Ciarlet-Geymonat, Holzapfel-Ogden with out-of-plane fibres, a user energy through jax): exact values, reference state, "
+        "objectivity against the predecessor state, stress = dW/de and tangent = dS/de by Richardson differences. HyperStep.tla: one time step of a bar in uniaxial strain for pointwise / gonzalez / quadrature stresses under midpoint / newmark / hht, "
+        "with the residual differentiated exactly by dual numbers; TLC proves on the lattice that the documented tangent formulas are that derivative, the discrete-gradient identity and the conservation over a midpoint step; each state is replayed on a QUAD4 and "
+        "a HEXA8 bar through the operators and (midpoint) a real simulation step (u0, v0) -> (u1, v1). HyperOps.tla: the contract table of all nonlinear operators (sign, step unknown, chain factor); each configuration is replayed by differentiating the residual "
+        "numerically on a randomly displaced mesh (incl. active stress, Kelvin-Voigt K and C, follower pressure, penalty contact, adaptive quadrature). Free-motion programs are run on real simulations and judged by Trace_HyperEnergy.tla (band 100 ppb).",
+        note="Trusted: TLC / Rat.tla, the dual-number arithmetic of HyperStep.tla (its tangent invariant cross-checks it against independent formulas), numpy finite differences (Richardson, 1e-5 / 2e-6 relative), jax for the user energy. "
+        "Conservation over arbitrarily many steps is argued inductively: every single midpoint step from an arbitrary state conserves (model + replay), plus 30 / 120-step recorded runs.",
+        technique="TLA+ exact models (rational kinematics, dual-number differentiation of the step residual) enumerated by TLC and replayed into laws / operators / simulation steps + recorded energy traces validated by a TLA+ trace spec",
+        design_ref="DESIGN.md 6/C18",
+    ),
     "C17": dict(
         text="spec/Splits.tla builds, in exact rational arithmetic, a lattice of strain states (every multiplicity / sign pattern of the principal values in 2-D and 3-D, zero, hydrostatic, uniaxial, "
         "rotated by rational rotations) together with the exact Miehe split (sigma+, psi+) and checks the partition relations on the model; the states are replayed MIXED inside elements through "
